@@ -88,4 +88,15 @@ CHECKS = {
         "quick": [A("c13", budget=0, what="all truncations/corruptions/variants, one chunk")],
         "thorough": [A("c13", budget=1, what="same, each under every single split point", deadline=1500)],
     },
+    "C05": {
+        "level": "model_checking",
+        "text": "The full table victim protocol state (10, incl. mid message and mid HTTP upgrade at every byte position) x transport (tcp, unix socket, websocket) x ending (FIN, reset seen by epoll / read / writev, oversize length, invalid JSON, three websocket protocol endings) x moment (alone; same harvested batch as a bystander message or as the expiry of one of the victim's requests, both dispatch orders) is executed on the real daemon. Consequences are computed from the state and checked on the bystanders: one remove per owned element, one error per request routed to the victim, the victim's own request dropped (late owner reply goes nowhere), descriptor closed once and never touched again (descriptor monitor), no ASan report, a bystander request in flight across the victim's life completes, change/get probes behave, peers/descriptors/timers/heap restored.",
+        "note": "Trusted: simk, ASan. The byte positions cover one representative request per transport; the subscriber used by the oracle subscribed before the victim.",
+        "technique": "stateless model checking of the implementation: exhaustive enumeration of a protocol-state x ending x moment x transport table with a consequence oracle",
+        "quick": [A("c05", params={"stride": 1}, what="full table, every byte position"),
+                  A("c05", variant="tiny", params={"stride": 1}, what="full table with tiny buffers/tables (96-byte write buffer, MAX_EPOLL_EVENTS 4)")],
+        "thorough": [A("c05", params={"stride": 1}, what="full table, every byte position"),
+                     A("c05", variant="tiny", params={"stride": 1}, what="full table, tiny variant"),
+                     A("c05", variant="local", params={"stride": 1}, what="full table, local-only-add variant")],
+    },
 }
